@@ -8,6 +8,8 @@ silent (no violation, no analysis error) on each twin; a twin that makes a rule 
   invert   every two-armed `if c: A else: B` becomes `if not c: B else: A`
   namedcond every compound `if` test is first bound to a local (`_vc = test; if _vc:`)
   tempret  every `return <expr>` becomes `_vr = <expr>; return _vr`
+  augexpand every `x += e` on a name / attribute becomes `x = x + e`
+  alias    in every method the most-read, never-assigned `self.<attr>` is bound to a local at the top and read through it
   reflow   sources are re-emitted by ast.unparse (comments dropped, layout and line numbers changed)
 
 usage: twins.py [--write DIR kind]   (default: run all checks on all twins and print a matrix)
@@ -191,6 +193,69 @@ def tempret_tree(tree):
     return tree
 
 
+def augexpand_tree(tree):
+    '''x += e  ->  x = x + e   (names and attribute targets; subscripts untouched: the index would be evaluated twice)'''
+    import copy
+    for parent, fld, body in list(_bodies(tree)):
+        for k, st in enumerate(body):
+            if isinstance(st, ast.AugAssign) and isinstance(st.target, (ast.Name, ast.Attribute)):
+                left = copy.deepcopy(st.target)
+                for x in ast.walk(left):
+                    if hasattr(x, 'ctx'):
+                        x.ctx = ast.Load()
+                body[k] = ast.copy_location(ast.Assign(targets=[st.target], value=ast.BinOp(left=left, op=st.op, right=st.value)), st)
+    return tree
+
+
+def alias_tree(tree):
+    '''in every method, the most frequently read `self.<attr>` that the method never assigns gets a local alias at the top'''
+    import copy
+    for fn in [n for n in ast.walk(tree) if isinstance(n, (ast.FunctionDef, ast.AsyncFunctionDef))]:
+        if not fn.args.args or fn.args.args[0].arg != 'self':
+            continue
+        reads, written = {}, set()
+        nested = [n for n in ast.walk(fn) if isinstance(n, (ast.FunctionDef, ast.AsyncFunctionDef, ast.Lambda)) and n is not fn]
+        skip = {id(x) for n in nested for x in ast.walk(n)}
+        for x in ast.walk(fn):
+            if id(x) in skip:
+                continue
+            if isinstance(x, ast.Attribute) and isinstance(x.value, ast.Name) and x.value.id == 'self':
+                if isinstance(x.ctx, ast.Load):
+                    reads[x.attr] = reads.get(x.attr, 0) + 1
+                else:
+                    written.add(x.attr)
+        # fields assigned through an AugAssign / anywhere in the class are left alone too: keep to plain reads
+        cands = [(c, a) for a, c in reads.items() if a not in written and c >= 2]
+        if not cands:
+            continue
+        attr = sorted(cands, key=lambda t: (-t[0], t[1]))[0][1]
+        # the aliased object must not be re-bound while the method runs; be conservative: skip state-like scalars
+        if attr in ('ok', 'caught_up', 'reorg_count', 'length', 'level', 'truncations', 'depth_higher', 'flush_count', 'fs_height',
+                    'fs_tx_count', 'state', 'touched', 'notified_height', 'cursor', 'comp_cursor', 'comp_flush_count', '_reorg_count',
+                    '_touched_count', '_highest_block', 'url_index', 'headers', 'tx_hashes', 'undo_infos', 'last_flush_state',
+                    'hsub_results', 'cost', 'force_flush_arg'):
+            continue
+        nm = f'_al_{attr}'
+
+        class R(ast.NodeTransformer):
+            def visit_Attribute(self, x):
+                self.generic_visit(x)
+                if isinstance(x.value, ast.Name) and x.value.id == 'self' and x.attr == attr and isinstance(x.ctx, ast.Load) and id(x) not in skip:
+                    return ast.copy_location(ast.Name(id=nm, ctx=ast.Load()), x)
+                return x
+
+            def visit_FunctionDef(self, x):
+                return x if x is not fn else self.generic_visit(x)
+            visit_AsyncFunctionDef = visit_FunctionDef
+
+            def visit_Lambda(self, x):
+                return x
+        R().visit(fn)
+        i = 1 if (fn.body and isinstance(fn.body[0], ast.Expr) and isinstance(fn.body[0].value, ast.Constant) and isinstance(fn.body[0].value.value, str)) else 0
+        fn.body.insert(i, ast.parse(f'{nm} = self.{attr}').body[0])
+    return tree
+
+
 def make_overlay(kind, root='/repo'):
     repo = Repo(root)
     out = {}
@@ -202,6 +267,10 @@ def make_overlay(kind, root='/repo'):
             tree = noop_tree(tree)
         elif kind == 'flip':
             tree = Flip().visit(tree)
+        elif kind == 'augexpand':
+            tree = augexpand_tree(tree)
+        elif kind == 'alias':
+            tree = alias_tree(tree)
         elif kind == 'invert':
             tree = invert_tree(tree)
         elif kind == 'namedcond':
@@ -241,7 +310,7 @@ def main():
                 f.write(src)
         print('written', kind, 'to', d)
         return
-    kinds = [a for a in sys.argv[1:] if not a.startswith('C')] or ['reflow', 'noop', 'flip', 'rename', 'invert', 'namedcond', 'tempret']
+    kinds = [a for a in sys.argv[1:] if not a.startswith('C')] or ['reflow', 'noop', 'flip', 'rename', 'invert', 'namedcond', 'tempret', 'augexpand', 'alias']
     props = [a for a in sys.argv[1:] if a.startswith('C')] or sorted(os.path.basename(p)[:-3].upper() for p in glob.glob(f'{VERIF}/sa/rules/c[0-9][0-9].py'))
     jobs = [(k, p) for k in kinds for p in props]
     noisy = 0
